@@ -955,6 +955,13 @@ func genSrvGoAway(p *prng, thorough bool, w *bufio.Writer) {
 				parked = append(parked, sid)
 			}
 		}
+		// some of the running requests are cancelled by the peer first: their handlers go on running, holding their
+		// slots, and come back after the GOAWAY
+		for _, sid := range parked {
+			if p.chance(1, 4) {
+				g.rst(sid, 8)
+			}
+		}
 		kind := p.intn(19)
 		g.line("#connoffence %d", kind)
 		g.gaugeEach = true
